@@ -950,6 +950,11 @@ def value_method(self, st, recv, name, args, kwargs, lv):
         h = getattr(self.reg, "str_methods", {}).get(name)
         if h:
             return h(self, st, recv, a, kwargs)
+        if name == "isdigit":
+            digit = z3.Range("0", "9")
+            return [(OK, st, Val(z3.And(z3.Length(recv.term) > 0, z3.InRe(recv.term, z3.Plus(digit))), BOOL))]
+        if name == "encode":
+            return [(OK, st, recv)]   # bytes of a str: modelled as the string itself (UTF-8 encoding is injective)
         if name == "startswith":
             return [(OK, st, Val(z3.PrefixOf(coerce(a[0], STR).term, recv.term), BOOL))]
         if name == "endswith":
